@@ -26,8 +26,9 @@ LEVEL = "exploration"
 TECHNIQUE = "complete subset enumeration of orthogonal flavour bases x block layouts x unit data, exact rational oracle"
 LEVEL_TEXT = (
     "every subset (thorough; quick: sizes <=2 and >=12) of the PID set, of the evolution labels and of nine "
-    "custom complete orthogonal bases is projected out of blocks in four layouts carrying unit and generic "
-    "integer data; result compared exactly with the defining conditions of the orthogonal projection; "
+    "custom complete orthogonal bases is projected out of blocks in eleven layouts (several of one shape with different PID subsets) carrying unit and generic "
+    "integer data; result compared exactly with the defining conditions of the orthogonal projection; the library's label-kind "
+    "dispatch must send every selection (in every container form) to its own representation builder; "
     "by linearity in the data this decides the statement for these selections and layouts"
 )
 LEVEL_NOTE = (
@@ -40,6 +41,8 @@ FLOOR_NONTRIVIAL = 20
 LHAPDF_ORDER = [-5, -4, -3, -2, -1, 21, 1, 2, 3, 4, 5]
 ODD_ORDER = [6, 22, -1, 3, 21, -6, 2, -2, 5]
 SCALES = [2, -3, F(1, 2), 1, -1, 5, F(3, 2), 4, -2, 3, F(1, 4), 7, -5, 6]
+SAME_SHAPE_PIDS = [LHAPDF_ORDER, ODD_ORDER, [21, 2, -2], [5, -2, 21, 22, 2, -4, 1]]
+SAME_SHAPE_BLOCKS = [6, 7, 8, 9]  # their positions in _blocks()
 FAMILIES = ["pid", "evol", "unified", "iqcd3", "iqcd4", "iqcd5", "iqed3", "iqed5", "pm", "scaled", "hadamard"]
 FULL_FAMILIES = ["pid", "evol"]
 
@@ -77,7 +80,8 @@ def _family(name, order):
 
 
 def _blocks():
-    """Six blocks: full order, LHAPDF order (t, tbar, photon absent), no data, odd order, all 14 PIDs in LHAPDF order and shuffled."""
+    """Eleven blocks: full order, LHAPDF order (t, tbar, photon absent), no data, odd order, all 14 PIDs in LHAPDF order and shuffled,
+    four blocks of the shape of the complete ones with different PID subsets, odd order with two scales."""
     import numpy as np
     from eko import basis_rotation as br
 
@@ -97,7 +101,93 @@ def _blocks():
             data[n, j] = float(2 * j * j + 3 * j + 7)  # distinct integers
             data[n + 1, j] = float((-1) ** j * (5 * j + 11))
         out.append({"mu2grid": np.array([1.0]), "xgrid": np.linspace(0.1, 1.0, n + 2), "pids": np.array(pids), "data": data})
+    # blocks of ONE shape (16 points, like the three complete blocks before them) listing different PID subsets: directly
+    # after a complete block a block without t, tbar, photon; then one that has these but lacks others; then a strict subset
+    # of it; then a strict superset of that again.  Whatever a block does not list is absent (zero) in it - not what an
+    # earlier block of the same shape had there.
+    for bi, pids in enumerate(SAME_SHAPE_PIDS):
+        n = len(pids)
+        data = np.zeros((16, n))
+        for i in range(16):
+            for j in range(n):
+                data[i, j] = float(i == j) if i < n else float((i * (5 + bi) + j * (3 + 2 * bi) + bi) % 13 - 6)
+        out.append({"mu2grid": np.array([1.0]), "xgrid": np.linspace(0.1, 1.0, 16), "pids": np.array(pids), "data": data})
+    # a data block with two scales (rows = x major, Q minor): the second scale carries other integers
+    n = len(ODD_ORDER)
+    data = np.zeros((2 * (n + 2), n))
+    for i in range(n + 2):
+        for j in range(n):
+            data[2 * i, j] = out[3]["data"][i, j]
+            data[2 * i + 1, j] = float((i * 7 + j * 3) % 11 - 5)
+    out.append({"mu2grid": np.array([1.0, 2.0]), "xgrid": np.linspace(0.1, 1.0, n + 2), "pids": np.array(ODD_ORDER), "data": data})
     return out
+
+
+def _dispatch(gf, kind, sel_labels, sel_rows):
+    """The library's own label-kind tests (used by genpdf.generate_pdf to choose the representation builder) on the
+    selection, offered in every container a caller could use.  -> list of (signature, message)."""
+    import numpy as np
+
+    if not sel_labels:
+        return []  # the empty selection has no kind (is_evolution_labels([]) is vacuously True): nothing demanded
+    if kind == "pid":
+        forms = {
+            "list-of-int": [int(p) for p in sel_labels],
+            "list-of-np.int64": [np.int64(p) for p in sel_labels],
+            "int-array": np.array(sel_labels, dtype=np.int_),
+            "tuple-of-int": tuple(int(p) for p in sel_labels),
+        }
+        want = (False, True)
+    elif kind == "evol":
+        forms = {"list-of-str": list(sel_labels), "tuple-of-str": tuple(sel_labels), "str-array": np.array(sel_labels)}
+        want = (True, False)
+    else:
+        fl = [[float(x) for x in r] for r in sel_rows]
+        forms = {"float-matrix": np.array(fl), "list-of-float-arrays": [np.array(r) for r in fl], "list-of-float-lists": fl}
+        if all(x.denominator == 1 for r in sel_rows for x in r):
+            # rows whose entries are integers, many of them valid PIDs (0 is not, 1, 2, -1, ... are)
+            il = [[int(x) for x in r] for r in sel_rows]
+            forms.update({"int-matrix": np.array(il, dtype=np.int_), "list-of-int-arrays": [np.array(r, dtype=np.int_) for r in il], "list-of-int-lists": il})
+        want = (False, False)
+    bad = []
+    for form, labels in forms.items():
+        try:
+            got = (bool(gf.is_evolution_labels(labels)), bool(gf.is_pid_labels(labels)))
+        except Exception as e:  # noqa
+            bad.append((f"dispatch/{kind}/container={form}/raises:{type(e).__name__}", f"{type(e).__name__}: {e}"))
+            continue
+        if got != want:
+            bad.append(
+                (
+                    f"dispatch/{kind}/container={form}",
+                    f"(is_evolution_labels, is_pid_labels) = {got}, a {kind} selection must give {want}: the selection would be "
+                    "projected through the wrong representation builder",
+                )
+            )
+    if kind == "pid":
+        # the route of generate_pdf: pid_to_flavor(np.array(labels, dtype=int))
+        try:
+            a = np.asarray(gf.pid_to_flavor(forms["int-array"]))
+            b = np.asarray(gf.pid_to_flavor(forms["list-of-int"]))
+            if a.shape != b.shape or not np.array_equal(a, b):
+                bad.append(("pid_to_flavor/container=int-array", "representations differ between an int array and a list of ints"))
+        except Exception as e:  # noqa
+            bad.append((f"pid_to_flavor/container=int-array/raises:{type(e).__name__}", f"{type(e).__name__}: {e}"))
+    return bad
+
+
+def _same_blocks(a, b):
+    import numpy as np
+
+    if len(a) != len(b):
+        return False
+    for x, y in zip(a, b):
+        if [int(p) for p in x["pids"]] != [int(p) for p in y["pids"]]:
+            return False
+        dx, dy = np.asarray(x["data"]), np.asarray(y["data"])
+        if dx.shape != dy.shape or not np.array_equal(dx, dy):
+            return False
+    return True
 
 
 def _flavour_vectors(block, order):
@@ -218,8 +308,21 @@ def evaluate(case):
                     res.fail(f"{'pid_to_flavor' if fam == 'pid' else 'evol_to_flavor'}", f"{what}: representations {got} expected {[rows[k] for k in sel]}")
                     nbad += 1
                     continue
+            for dsig, dmsg in _dispatch(gf, kind, [labs[k] for k in sel], [rows[k] for k in sel]):
+                res.fail(dsig, f"{what}: {dmsg}")
+                nbad += 1
             new = gf.project(blocks, reprs)
             again = gf.project(new, reprs)
+            if kind == "custom" and sel:
+                # the documented call passes a Python list of 1-d arrays (generate_pdf(name, [anti_qed_singlet]))
+                try:
+                    alt = gf.project(blocks, [np.array(r) for r in reprs])
+                    if not _same_blocks(alt, new):
+                        res.fail("project/custom/container=list-of-arrays", f"{what}: result differs from the one for the same rows as a matrix")
+                        nbad += 1
+                except Exception as e:  # noqa
+                    res.fail(f"project/custom/container=list-of-arrays/raises:{type(e).__name__}", f"{what}: {type(e).__name__}: {e}")
+                    nbad += 1
         except Exception as e:  # noqa
             res.fail(f"{sig}/raises:{type(e).__name__}", f"{what}: {type(e).__name__}: {e}")
             nbad += 1
@@ -245,6 +348,20 @@ def evaluate(case):
                 res.fail(f"{sig}/non-finite", f"{w2}: non-finite data")
                 nbad += 1
                 continue
+            if bi in SAME_SHAPE_BLOCKS:
+                # the result for a block does not depend on the blocks before it
+                try:
+                    alone = gf.project([b0], reprs)
+                    same = len(alone) == 1 and _same_blocks(alone, [b1])
+                except Exception as e:  # noqa
+                    same = False
+                if not same:
+                    res.fail(
+                        f"{sig}/depends-on-earlier-blocks",
+                        f"{w2}: projected together with the blocks before it the result differs from projecting the block alone",
+                    )
+                    nbad += 1
+                    continue
             X1, X2 = d1 * L, d2 * L
             R1, R2 = np.rint(X1), np.rint(X2)
             resid = max(float(np.abs(X1 - R1).max()), float(np.abs(X2 - R2).max())) / L
@@ -312,8 +429,15 @@ def run(ctx):
         + ("(pid, evol: every size; custom bases: sizes 0-4 and 10-14)" if ctx.thorough() else "of size 0-2 and 12-14")
         + " of 11 complete orthogonal bases of flavour space (14 PIDs via pid_to_flavor, 14 evolution labels via "
         "evol_to_flavor, 9 custom: unified, intrinsic QCD nf=3,4,5, intrinsic QED nf=3,5, q+-, rescaled evolution, "
-        "Hadamard); each projected out of 4 blocks (full order, LHAPDF order without t/photon, no data, odd order) "
-        "carrying unit data for every column plus 2 integer rows, and projected a second time; a case = " + str(step) + " "
+        "Hadamard); each projected out of 11 blocks (full order, LHAPDF order without t/photon, no data, odd order, all 14 PIDs in "
+        "LHAPDF order and shuffled, four blocks of the same shape as the complete ones listing different PID subsets [fewer PIDs than "
+        "the block before, other PIDs, strict subset, strict superset], odd order with two scales) "
+        "carrying unit data for every column plus 2 integer rows, and projected a second time; the same-shape blocks also projected alone (result must not depend on the blocks before); custom selections also as a Python list "
+        "of 1-d arrays (must reproduce the matrix call bit for bit); for every non-empty selection the library's label-kind tests "
+        "is_evolution_labels / is_pid_labels (the dispatch of generate_pdf) must classify it as (False, True) [pid: list of int, of "
+        "np.int64, int array, tuple], (True, False) [evolution: list, tuple, array of str], (False, False) [custom: float matrix, "
+        "list of float arrays, list of float lists, and, for integer-valued rows, int matrix, list of int arrays, list of int lists]; "
+        "a case = " + str(step) + " "
         "consecutive subset masks of one family; non-trivial = at least one subset of the tier in the range"
     )
     ctx.assumptions += [
@@ -322,4 +446,6 @@ def run(ctx):
         "r.f'=0 (unselected) are equivalent to f' = orthogonal projection of f on the span of the selection",
         "results are identified with multiples of 1/L, L the exact common denominator of the reference (max residue recorded, bound 1e-12)",
         "flavour content of evolution labels from vf/ref/c31_bases.py (documentation)",
+        "block data are float arrays (as the loader and generate_block produce); integer-dtype data are outside the lattice",
+        "the empty selection has no label kind: its classification is not judged",
     ]
